@@ -25,6 +25,7 @@ import (
 	"runtime"
 	"strings"
 	"sync"
+	"syscall"
 	"time"
 
 	"github.com/ipfs/go-peertaskqueue/peertask"
@@ -42,6 +43,7 @@ import (
 	"github.com/ipfs/go-graphsync/messagequeue"
 	gsnet "github.com/ipfs/go-graphsync/network"
 	"github.com/ipfs/go-graphsync/peermanager"
+	"github.com/ipfs/go-graphsync/peerstate"
 	"github.com/ipfs/go-graphsync/persistenceoptions"
 	"github.com/ipfs/go-graphsync/responsemanager"
 	"github.com/ipfs/go-graphsync/responsemanager/hooks"
@@ -67,6 +69,8 @@ type childRes struct {
 	Entry bool     `json:"entry"`
 	Hung  bool     `json:"hung"`
 	Again bool     `json:"again"`
+	Why   string   `json:"why,omitempty"`
+	Ran   bool     `json:"ran"`
 }
 
 type rlCase struct {
@@ -110,6 +114,7 @@ type world struct {
 	inStart  bool // the worker popped the task and is parked before its StartTask call
 	startCh  chan struct{}
 	hung     bool
+	hungAt   string
 }
 
 type rlConn struct{ w *world }
@@ -263,6 +268,40 @@ func (w *world) blockHook(p peer.ID, req graphsync.RequestData, bd graphsync.Blo
 	w.mu.Unlock()
 }
 
+// bounded runs f on its own goroutine and waits for it at most waitLimit: a call into the responder that
+// does not return (the loop is blocked) becomes a recorded hang instead of blocking the driver
+func (w *world) bounded(what string, f func()) bool {
+	done := make(chan struct{})
+	go func() {
+		defer close(done)
+		f()
+	}()
+	select {
+	case <-done:
+		return true
+	case <-time.After(waitLimit):
+		w.mu.Lock()
+		w.hung = true
+		w.hungAt = what + " did not return"
+		w.mu.Unlock()
+		return false
+	}
+}
+
+// give hands v to a parked goroutine of the stack, bounded like every other wait
+func give[T any](w *world, what string, ch chan T, v T) bool {
+	select {
+	case ch <- v:
+		return true
+	case <-time.After(waitLimit):
+		w.mu.Lock()
+		w.hung = true
+		w.hungAt = what + " was not taken"
+		w.mu.Unlock()
+		return false
+	}
+}
+
 func (w *world) note(k string) {
 	w.mu.Lock()
 	w.ev[k]++
@@ -308,7 +347,7 @@ const (
 	fnHold    = "main.rlExec.ExecuteTask"
 	fnFin     = "main.rlMgr.FinishTask"
 	fnStart   = "main.rlMgr.StartTask"
-	waitLimit = 10 * time.Second
+	waitLimit = 8 * time.Second
 )
 
 func isSelf(g gState) bool { return strings.Contains(g.body, "main.goroutineStates") }
@@ -340,6 +379,9 @@ func (w *world) waitMQ() {
 	}
 	w.mu.Lock()
 	w.hung = true
+	if w.hungAt == "" {
+		w.hungAt = "the responder stack did not come to rest"
+	}
 	w.mu.Unlock()
 }
 
@@ -381,6 +423,9 @@ func (w *world) settle() {
 	}
 	w.mu.Lock()
 	w.hung = true
+	if w.hungAt == "" {
+		w.hungAt = "the responder stack did not come to rest"
+	}
 	w.mu.Unlock()
 }
 
@@ -419,7 +464,7 @@ var labelTerm = map[string]string{
 }
 
 // runCase executes the labels; returns the Coq terms "(label, obs)" of the labels that applied
-func runCase(c rlCase) (steps []string, finalEntry bool, hung bool) {
+func runCase(c rlCase) (steps []string, finalEntry bool, hung bool, why string) {
 	ctx, cancel := context.WithCancel(context.Background())
 	w := &world{ctx: ctx, cancel: cancel, p: peer.ID("peer-1"), p2: peer.ID("peer-dummy"), rid: graphsync.NewRequestID(),
 		chain: dag.Chain(c.N), ev: map[string]uint64{}, atGate: -1, gateCh: make(chan string), release: make(chan bool),
@@ -508,19 +553,25 @@ func runCase(c rlCase) (steps []string, finalEntry bool, hung bool) {
 			}
 			seen = true
 			w.newKind = l.A
-			w.rm.ProcessRequests(ctx, w.p, []gsmsg.GraphSyncRequest{gsmsg.NewRequest(w.rid, w.chain.Blocks[0].Cid, dag.AllSelector(), graphsync.Priority(1))})
+			w.bounded("ProcessRequests", func() {
+				w.rm.ProcessRequests(ctx, w.p, []gsmsg.GraphSyncRequest{gsmsg.NewRequest(w.rid, w.chain.Blocks[0].Cid, dag.AllSelector(), graphsync.Priority(1))})
+			})
 		case "rcancel":
-			w.rm.ProcessRequests(ctx, w.p, []gsmsg.GraphSyncRequest{gsmsg.NewCancelRequest(w.rid)})
+			w.bounded("ProcessRequests", func() {
+				w.rm.ProcessRequests(ctx, w.p, []gsmsg.GraphSyncRequest{gsmsg.NewCancelRequest(w.rid)})
+			})
 		case "rupdate":
-			w.rm.ProcessRequests(ctx, w.p, []gsmsg.GraphSyncRequest{gsmsg.NewUpdateRequest(w.rid, ext("verif/"+l.A))})
+			w.bounded("ProcessRequests", func() {
+				w.rm.ProcessRequests(ctx, w.p, []gsmsg.GraphSyncRequest{gsmsg.NewUpdateRequest(w.rid, ext("verif/"+l.A))})
+			})
 		case "apause":
-			ret = errKind(w.rm.PauseResponse(ctx, w.rid))
+			w.bounded("PauseResponse", func() { ret = errKind(w.rm.PauseResponse(ctx, w.rid)) })
 		case "aunpause":
-			ret = errKind(w.rm.UnpauseResponse(ctx, w.rid))
+			w.bounded("UnpauseResponse", func() { ret = errKind(w.rm.UnpauseResponse(ctx, w.rid)) })
 		case "acancel":
-			ret = errKind(w.rm.CancelResponse(ctx, w.rid))
+			w.bounded("CancelResponse", func() { ret = errKind(w.rm.CancelResponse(ctx, w.rid)) })
 		case "aupdate":
-			ret = errKind(w.rm.UpdateResponse(ctx, w.rid, ext("verif/api")))
+			w.bounded("UpdateResponse", func() { ret = errKind(w.rm.UpdateResponse(ctx, w.rid, ext("verif/api"))) })
 		case "gate", "gateh":
 			if atGate < 0 {
 				continue
@@ -530,12 +581,12 @@ func runCase(c rlCase) (steps []string, finalEntry bool, hung bool) {
 				w.armFin = true
 				w.mu.Unlock()
 			}
-			w.gateCh <- l.A
+			give(w, "the block hook gate", w.gateCh, l.A)
 		case "finish":
 			if !inFin {
 				continue
 			}
-			w.finCh <- struct{}{}
+			give(w, "the FinishTask gate", w.finCh, struct{}{})
 		case "armstart":
 			if inStart || lastTq == 2 {
 				continue
@@ -547,7 +598,7 @@ func runCase(c rlCase) (steps []string, finalEntry bool, hung bool) {
 			if !inStart {
 				continue
 			}
-			w.startCh <- struct{}{}
+			give(w, "the StartTask gate", w.startCh, struct{}{})
 		case "send":
 			if infl == nil {
 				continue
@@ -563,7 +614,7 @@ func runCase(c rlCase) (steps []string, finalEntry bool, hung bool) {
 			if l.A != "ok" {
 				w.pmm.Disconnected(w.p) // the peer is gone: its queue is shut down, the pending write fails
 			}
-			w.release <- l.A == "ok"
+			give(w, "the SendMsg outcome", w.release, l.A == "ok")
 		case "hold":
 			st := w.tq.Stats()
 			if held || atGate >= 0 || inFin || inStart || st.Active > 0 || st.Pending > 0 {
@@ -576,15 +627,29 @@ func runCase(c rlCase) (steps []string, finalEntry bool, hung bool) {
 				continue
 			}
 			held = false
-			w.holdCh <- struct{}{}
+			give(w, "the worker hold", w.holdCh, struct{}{})
 		default:
 			continue
 		}
-		w.settle()
+		w.mu.Lock()
+		already := w.hung
+		w.mu.Unlock()
+		if !already {
+			w.settle()
+		}
 		w.mu.Lock()
 		w.armFin = false // only the run the label started can be held
+		stuck := w.hung
 		w.mu.Unlock()
-		ps := w.rm.PeerState(w.p)
+		if stuck {
+			// the stack did not come to rest after this label (or a call did not return): nothing can be
+			// observed reliably any more
+			break
+		}
+		var ps peerstate.PeerState
+		if !w.bounded("PeerState", func() { ps = w.rm.PeerState(w.p) }) {
+			break
+		}
 		st, tqs := uint64(0), uint64(0)
 		if s, ok := ps.RequestStates[w.rid]; ok {
 			st = uint64(s) + 1
@@ -642,13 +707,31 @@ func runCase(c rlCase) (steps []string, finalEntry bool, hung bool) {
 			break
 		}
 	}
+	w.mu.Lock()
 	hung = w.hung
+	why = w.hungAt
+	w.mu.Unlock()
 	cancel()
-	for i := 0; i < 100000 && !goneAll(); i++ {
+	gone := false
+	for end := time.Now().Add(waitLimit); time.Now().Before(end); {
+		if gone = goneAll(); gone {
+			break
+		}
 		time.Sleep(50 * time.Microsecond)
+	}
+	if !gone {
+		// goroutines of this case survive its context: parking can no longer be read from the stacks of this
+		// process, so it must not run another case
+		hung = true
+		if why == "" {
+			why = "goroutines of the responder stack outlived the case's context"
+		}
+		processDirty = true
 	}
 	return
 }
+
+var processDirty bool
 
 // ---- generation ----
 
@@ -793,6 +876,8 @@ func run(c *drv.Ctx) error {
 		steps []string
 		entry bool
 		hung  bool
+		why   string
+		ran   bool
 		kind  string
 	}
 	var cases []res
@@ -816,28 +901,55 @@ func run(c *drv.Ctx) error {
 		}
 	}
 	retried := 0
-	runOne := func(rc rlCase) (steps []string, entry, hung, again bool) {
-		steps, entry, hung = runCase(rc)
-		if hung {
-			// a wait for the goroutines to park expired (machine under load): run the case again; a second
-			// expiry is kept and reported (goroutines that never park are a defect)
+	const maxHangs = 3 // after this many cases that end in a hang no further case is scheduled
+	runOne := func(rc rlCase) (r childRes) {
+		r.Steps, r.Entry, r.Hung, r.Why = runCase(rc)
+		if r.Hung && !processDirty {
+			// a wait expired (machine under load?): run the case again; a second expiry is kept and reported
+			// (a responder that never comes to rest is a defect)
 			time.Sleep(200 * time.Millisecond)
-			steps, entry, hung = runCase(rc)
-			again = true
+			r.Steps, r.Entry, r.Hung, r.Why = runCase(rc)
+			r.Again = true
 		}
+		r.Ran = true
 		return
+	}
+	// runSlice runs cases one after the other until maxHangs of them hung (or this process can no longer
+	// read parking from its stacks); the rest is left un-run
+	runSlice := func(in []rlCase, each func(i int, r childRes)) {
+		hangs := 0
+		for i, rc := range in {
+			if hangs >= maxHangs || processDirty {
+				break
+			}
+			r := runOne(rc)
+			if r.Hung {
+				hangs++
+			}
+			each(i, r)
+		}
+	}
+	limit := 4 * time.Minute // hard limit of one driver process; far above a normal run
+	if c.Thorough() {
+		limit = 12 * time.Minute
 	}
 	if child := os.Getenv("RESPLIFE_CHILD"); child != "" {
 		// child process: run the cases of one slice (parking is detected from the goroutine stacks of the whole
-		// process, so cases run one at a time per process; the parent runs several processes)
+		// process, so cases run one at a time per process; the parent runs several processes).  Results are
+		// written after every case, so the parent has them even if this process is stopped; it stops itself at
+		// the limit and dies with its parent.
+		time.AfterFunc(limit, func() { os.Exit(4) })
 		var in []rlCase
 		if err := drv.ReadJSON(child, &in); err != nil {
 			return err
 		}
 		outv := make([]childRes, len(in))
-		for i, rc := range in {
-			outv[i].Steps, outv[i].Entry, outv[i].Hung, outv[i].Again = runOne(rc)
-		}
+		runSlice(in, func(i int, r childRes) {
+			outv[i] = r
+			b, _ := json.Marshal(outv)
+			_ = os.WriteFile(child+".tmp", b, 0o644)
+			_ = os.Rename(child+".tmp", child+".out")
+		})
 		b, _ := json.Marshal(outv)
 		return os.WriteFile(child+".out", b, 0o644)
 	}
@@ -845,20 +957,25 @@ func run(c *drv.Ctx) error {
 	if c.Thorough() {
 		procs = 6
 	}
-	if len(cases) < 40 {
-		for i := range cases {
-			var again bool
-			cases[i].steps, cases[i].entry, cases[i].hung, again = runOne(cases[i].c)
-			if again {
-				retried++
-			}
+	take := func(i int, r childRes) {
+		cases[i].steps, cases[i].entry, cases[i].hung, cases[i].why, cases[i].ran = r.Steps, r.Entry, r.Hung, r.Why, r.Ran
+		if r.Again {
+			retried++
 		}
+	}
+	stopped := 0
+	if len(cases) < 40 {
+		var in []rlCase
+		for i := range cases {
+			in = append(in, cases[i].c)
+		}
+		runSlice(in, take)
 	} else {
 		if err := os.MkdirAll(c.Out, 0o755); err != nil {
 			return err
 		}
 		var wg sync.WaitGroup
-		errs := make([]error, procs)
+		var mu sync.Mutex
 		for k := 0; k < procs; k++ {
 			var in []rlCase
 			for i := k; i < len(cases); i += procs {
@@ -872,42 +989,55 @@ func run(c *drv.Ctx) error {
 			wg.Add(1)
 			go func(k int, f string) {
 				defer wg.Done()
-				cmd := exec.Command(os.Args[0], "resplife", "-out", c.Out)
+				cctx, ccancel := context.WithTimeout(context.Background(), limit+20*time.Second)
+				defer ccancel()
+				cmd := exec.CommandContext(cctx, os.Args[0], "resplife", "-out", c.Out, "-tier", c.Tier)
 				cmd.Env = append(os.Environ(), "RESPLIFE_CHILD="+f)
 				cmd.Stderr = os.Stderr
-				if err := cmd.Run(); err != nil {
-					errs[k] = fmt.Errorf("child %d: %w", k, err)
-					return
-				}
+				cmd.SysProcAttr = &syscall.SysProcAttr{Pdeathsig: syscall.SIGKILL}
+				runErr := cmd.Run()
 				var outv []childRes
-				if err := drv.ReadJSON(f+".out", &outv); err != nil {
-					errs[k] = err
-					return
-				}
+				_ = drv.ReadJSON(f+".out", &outv) // whatever the child got to
+				mu.Lock()
 				for j, r := range outv {
-					i := k + j*procs
-					cases[i].steps, cases[i].entry, cases[i].hung = r.Steps, r.Entry, r.Hung
-				}
-				for _, r := range outv {
-					if r.Again {
-						errs[k] = nil
+					if r.Ran {
+						take(k+j*procs, r)
 					}
 				}
+				if runErr != nil {
+					stopped++
+				}
+				mu.Unlock()
 				os.Remove(f)
 				os.Remove(f + ".out")
+				os.Remove(f + ".tmp")
 			}(k, f)
 		}
 		wg.Wait()
-		for _, e := range errs {
-			if e != nil {
-				return e
-			}
+	}
+	notRun := 0
+	for _, r := range cases {
+		if !r.ran {
+			notRun++
 		}
 	}
+	w.Stats.Extra = map[string]any{}
+	if notRun > 0 {
+		w.Stats.Extra["cases_not_run_after_hangs"] = notRun
+	}
+	if stopped > 0 {
+		w.Stats.Extra["child_processes_stopped_at_limit"] = stopped
+	}
 	if retried > 0 {
-		w.Stats.Extra = map[string]any{"cases_rerun_after_wait_expired": retried}
+		w.Stats.Extra["cases_rerun_after_wait_expired"] = retried
+	}
+	if len(w.Stats.Extra) == 0 {
+		w.Stats.Extra = nil
 	}
 	for _, r := range cases {
+		if !r.ran {
+			continue
+		}
 		tags := append([]string{"kind:" + r.kind}, tagsOf(r.c)...)
 		nontrivial := false
 		for _, t := range tags {
@@ -919,7 +1049,7 @@ func run(c *drv.Ctx) error {
 		term := fmt.Sprintf("Build_rcase %d\n    %s", r.c.N, cw.List(r.steps))
 		idx := w.Add(term, r.c, nontrivial, tags...)
 		if r.hung {
-			w.Violation(idx, "the responder stack did not come to rest within the deadline (twice)", "resplife-hang")
+			w.Violation(idx, "hang (twice): "+r.why, "resplife-hang")
 		}
 	}
 	return w.Flush()
